@@ -147,13 +147,17 @@ theorem history_no_fault (mode : Mode) (ps : Nat) (src : Bytes) (hps : 0 < ps) (
 /-- **Re-reading under an anchor.** While an anchor is set at offset `A`, every `SetOffset o` with `A ≤ o` inside the
     input is within the contract, succeeds, and the bytes then read at `o` are the bytes of the input at `o`. -/
 theorem reread_under_anchor (P : Nat) (a : AState) (s : Sess) (r : R P a s) (A o k : Nat)
-    (hA : a.anchor = some A) (hle : A ≤ o) (hlt : o < a.src.length) :
+    (hA : a.anchor = some A) (hle : A ≤ o) (hlt : o ≤ a.src.length) :
     Valid P a (.setOffset o) ∧
     obsOf (.setOffset o) (s.step (.setOffset o)).1 (s.step (.setOffset o)).2 = ⟨.ok, [], o⟩ ∧
     (let s' := (s.step (.setOffset o)).2
      ((s'.step (.read k)).1.st, (s'.step (.read k)).1.bytes) =
        ((specRead ⟨a.src, o⟩ k).1, (specRead ⟨a.src, o⟩ k).2.1)) := by
-  have hv : Valid P a (.setOffset o) := ⟨hlt, Or.inr ⟨A, hA, hle⟩⟩
+  have hv : Valid P a (.setOffset o) := by
+    refine ⟨?_, Or.inr ⟨A, hA, hle⟩⟩
+    rcases Nat.lt_or_ge o a.src.length with h | h
+    · exact Or.inl h
+    · exact Or.inr ⟨by omega, by rw [hA]; intro hh; cases hh⟩
   obtain ⟨h1, h2⟩ := sim_setOffset P o a s r hv
   refine ⟨hv, h1, ?_⟩
   obtain ⟨g1, _⟩ := sim_read P k _ _ h2 trivial
